@@ -367,6 +367,12 @@ func (c *vacCase) run() {
 		}
 		fr, err := c.freshRows()
 		if err != nil || fr != freshBefore {
+			// F51 (design): a vacuumer that has not merged another writer's version purges the marker of a row
+			// that version still holds as live; the merged view then shows the row again
+			if stale && err == nil && isSuperset(fr, freshBefore) && c.st.known("F51") {
+				c.st.Count("known_F51")
+				return false
+			}
 			c.fail(fmt.Sprintf("%s: a connection opened afterwards sees %q (err %v), want %q", stage, fr, err, freshBefore))
 			return false
 		}
